@@ -64,7 +64,13 @@ class RemoteValueSetpointShift(RemoteValue[float]):
                 f"Setpoint shift DPT not initialized for {self.device_name}"
             )
         if self._internal_dpt_class == DPTValue1Count:
-            converted_value = int(value / self.setpoint_shift_step)
+            try:
+                converted_value = int(value / self.setpoint_shift_step)
+            except (ValueError, OverflowError) as err:  # nan, inf
+                raise ConversionError(
+                    f"Could not serialize setpoint shift for {self.device_name}",
+                    value=value,
+                ) from err
             return DPTValue1Count.to_knx(converted_value)
         return DPTTemperature.to_knx(value)
 
